@@ -180,6 +180,14 @@ def _kernel_obligations(fn, rel):
         res.append(ObResult(f"{fname}::partition:shape", "partition", "unknown", "ast", 0.0, function=fname, line=lp.lineno,
                             detail=str(e), engine="E1"))
         return res
+    # contiguous-chunk partitions: the rank that owns c is c div chunk for any rank-independent local definition
+    for name, val in defs.items():
+        if not _mentions(val, {RANK}):
+            try:
+                dv = _term(val, {SIZE: W, **{k: v for k, v in env1.items() if k not in (RANK, SIZE, name)}})
+                witness_terms.append(c / z3.If(dv >= 1, dv, 1))
+            except _Unknown:
+                pass
     base = [W >= 1]
     # every loop step must be positive for the membership encoding; div/mod divisors positive
     obl = {}
@@ -274,6 +282,8 @@ def _native_replay(kernel_name, model):
     Runs in a forked child (numba compile, possible crash)."""
     from vf import rtc
 
+    if os.environ.get("VERIF_NO_NATIVE_REPLAY"):
+        return dict(reproduced=False, note="native replay switched off (selftest)")
     kind = None
     for suf, (k, _) in _SYM.items():
         if kernel_name.endswith("_" + suf):
@@ -389,9 +399,23 @@ def _submit_obligations(tree, rel):
                         raise _Unknown("comprehension shape not understood")
                     W = z3.Int("W")
                     i = z3.Int(gen.target.id)
-                    if not (isinstance(kw.get(SIZE), ast.Name)):
-                        raise _Unknown(f"{SIZE}= is not a plain name")
-                    env = {kw[SIZE].id: W, gen.target.id: i}
+                    if SIZE not in kw:
+                        raise _Unknown(f"no {SIZE}= keyword")
+                    # the worker count is the name bound from get_pool_and_world_size(...) in this method
+                    wname = None
+                    for st in ast.walk(fn):
+                        if isinstance(st, ast.Assign) and isinstance(st.value, ast.Call) \
+                                and getattr(st.value.func, "id", None) == "get_pool_and_world_size" \
+                                and isinstance(st.targets[0], ast.Tuple) and len(st.targets[0].elts) == 2 \
+                                and isinstance(st.targets[0].elts[1], ast.Name):
+                            wname = st.targets[0].elts[1].id
+                    if wname is None:
+                        raise _Unknown("worker count is not taken from get_pool_and_world_size")
+                    env = {wname: W, gen.target.id: i}
+                    for part in (kw[SIZE], kw[RANK], gen.iter):
+                        free = {n.id for n in ast.walk(part) if isinstance(n, ast.Name)} - set(env) - {"range", "min", "max"}
+                        if free:
+                            raise _Unknown(f"names not understood in {ast.unparse(part)}: {sorted(free)}")
                     rng = _range_of(gen.iter, dict(env))
                     rank_t = _term(kw[RANK], dict(env))
                     size_t = _term(kw[SIZE], dict(env))
